@@ -308,6 +308,7 @@ func (m *c09Machine) reload(g2 gslbConf, t2 tableConf, mutations []string) *c09F
 			continue
 		}
 		m.class("backend-persists")
+		m.class("persists-" + c09AddrClass(confs[0].Addr))
 		ok := false
 		for _, b := range l {
 			for _, o := range olds {
@@ -349,6 +350,21 @@ func c09SameListing(a, b map[c09Key][]*backend.BfeBackend) bool {
 
 // ---- generation
 
+// address forms the loader accepts: IPv4, IPv6 literals (bare and bracketed), host names
+var c09Addrs = []string{"10.0.0.1", "2001:db8::1", "10.0.0.2", "[2001:db8::2]", "10.0.0.3", "be-3.example.org", "10.0.0.4", "10.0.0.5", "::1", "10.0.0.6"}
+
+func c09AddrClass(addr string) string {
+	switch {
+	case strings.HasPrefix(addr, "["):
+		return "addr:ipv6-bracketed"
+	case strings.Contains(addr, ":"):
+		return "addr:ipv6-bare"
+	case strings.HasPrefix(addr, "be-"):
+		return "addr:hostname"
+	}
+	return "addr:ipv4"
+}
+
 func c09GenBackend(rt *rapid.T, label string) beConf {
 	w := rapid.IntRange(1, 3).Draw(rt, label+"-w")
 	switch k := rapid.IntRange(0, 99).Draw(rt, label+"-wk"); {
@@ -359,7 +375,7 @@ func c09GenBackend(rt *rapid.T, label string) beConf {
 	}
 	return beConf{
 		Name:   fmt.Sprintf("n%d", rapid.IntRange(0, 9).Draw(rt, label+"-name")),
-		Addr:   fmt.Sprintf("10.0.0.%d", rapid.IntRange(1, 6).Draw(rt, label+"-addr")),
+		Addr:   c09Addrs[rapid.IntRange(0, len(c09Addrs)-1).Draw(rt, label+"-addr")],
 		Port:   80 + rapid.IntRange(0, 1).Draw(rt, label+"-port"),
 		Weight: w,
 	}
@@ -441,11 +457,8 @@ func c09Mutate(rt *rapid.T, label string, g gslbConf, t tableConf) (gslbConf, ta
 			"rename-backend", "move-backend-addr", "duplicate-backend", "add-subcluster", "remove-subcluster",
 			"change-gslb-weight", "remove-cluster-while-another-fails", "add-cluster", "remove-cluster",
 			"drop-cluster-from-table-only", "add-cluster-to-gslb-only", "restore-clusters-in-table", "drop-sub-from-gslb-only",
-			"add-sub-to-gslb-only", "shuffle", "noop",
+			"add-sub-to-gslb-only", "drop-sub-from-table-only", "shuffle", "noop",
 		}).Draw(rt, l+"-kind")
-		if rapid.IntRange(0, 255).Draw(rt, l+"-rare") == 137 { // (rapid biases draws towards small values: a mid value is rare)
-			kind = "drop-sub-from-table-only" // ends the history at an open finding: kept rare
-		}
 		c := pickCluster(l)
 		if c == "" && kind != "add-cluster" {
 			kind = "add-cluster"
